@@ -1074,6 +1074,71 @@ func pathStr(p []string) string {
 	return strings.Join(hs, "/")
 }
 
+// genMoveScenario builds histories around MoveBucket's interaction with buckets opened, deleted or created in the same
+// transaction (the places where a bucket's cached instance, its stored header and the free list must stay in step):
+//
+//	kind 0: delete a paged bucket nested two levels below a bucket, then move that bucket (only indirect changes below it)
+//	kind 1: move a paged bucket into a bucket created in this transaction (or into a small inline one), then delete the destination
+//	kind 2: change a nested bucket, move its parent, change the nested bucket again through the new path
+func genMoveScenario(r *rng, o openOpts, kind int) []string {
+	hx := func(s string) string { return hex.EncodeToString([]byte(s)) }
+	big := func(path string, n int) []string {
+		var L []string
+		for i := 0; i < n; i++ {
+			L = append(L, fmt.Sprintf("x w put %s %s @%d:%d", path, hx(fmt.Sprintf("k%03d", i)), o.ps/3+r.intn(o.ps/2), r.intn(256)))
+		}
+		return L
+	}
+	L := []string{"open " + o.String(), "beginw"}
+	switch kind {
+	case 0:
+		a, c, g, x, d := hx("a"), hx("child"), hx("g"), hx("x"), hx("dst")
+		L = append(L, "x w create - "+a, "x w create "+a+" "+c, "x w create "+a+"/"+c+" "+g, "x w create "+a+"/"+c+"/"+g+" "+x, "x w create - "+d)
+		L = append(L, big(a+"/"+c+"/"+g+"/"+x, 6+r.intn(20))...)
+		if r.chance(1, 2) {
+			L = append(L, big(a+"/"+c+"/"+g, 3+r.intn(10))...)
+		}
+		if r.chance(1, 2) {
+			L = append(L, fmt.Sprintf("x w put %s 6b %s", a+"/"+c, "@20:1"))
+		}
+		L = append(L, "dump w", "commit", "beginw")
+		if r.chance(1, 3) {
+			L = append(L, "x w get "+a+"/"+c+"/"+g+" "+hx("k000")) // opens the chain without changing anything
+		}
+		L = append(L, "x w delb "+a+"/"+c+"/"+g+" "+x, "x w move "+a+" "+c+" "+d, "dump w", "commit")
+	case 1:
+		q, nb := hx("q"), hx("nb")
+		L = append(L, "x w create - "+q)
+		L = append(L, big(q, 6+r.intn(20))...)
+		inlineDst := r.chance(1, 2)
+		if inlineDst {
+			L = append(L, "x w create - "+nb, "x w put "+nb+" 6b 76") // a small bucket: stored inline in its parent
+		}
+		L = append(L, "dump w", "commit", "beginw")
+		if !inlineDst {
+			L = append(L, "x w create - "+nb)
+		}
+		L = append(L, "x w move - "+q+" "+nb)
+		if r.chance(1, 2) {
+			L = append(L, "x w get "+nb+"/"+q+" "+hx("k001"))
+		}
+		L = append(L, "x w delb - "+nb, "dump w", "commit")
+	default:
+		a, c, g, d := hx("a"), hx("child"), hx("g"), hx("dst")
+		L = append(L, "x w create - "+a, "x w create "+a+" "+c, "x w create "+a+"/"+c+" "+g, "x w create - "+d)
+		L = append(L, big(a+"/"+c+"/"+g, 4+r.intn(12))...)
+		L = append(L, "dump w", "commit", "beginw")
+		L = append(L, "x w put "+a+"/"+c+"/"+g+" "+hx("new1")+" @30:7", "x w nextseq "+a+"/"+c+"/"+g, "x w move "+a+" "+c+" "+d,
+			"x w put "+d+"/"+c+"/"+g+" "+hx("new2")+" @40:8", "x w del "+d+"/"+c+"/"+g+" "+hx("k000"), "x w list "+d+"/"+c+"/"+g, "dump w", "commit")
+	}
+	// one more ordinary transaction (page reuse), then the closing check
+	L = append(L, "beginw", "x w createif - "+hx("z"))
+	L = append(L, big(hx("z"), 3+r.intn(8))...)
+	L = append(L, "dump w", "commit", "beginr 901", "dump r901", "check r901", "bstats r901", "endr 901", "close",
+		"open "+o.String(), "beginr 902", "dump r902", "check r902", "endr 902", "close")
+	return L
+}
+
 type genCfg struct {
 	ps        int
 	txs       int
